@@ -30,9 +30,11 @@ Definition as_backbone (t : seq) (r : asrec) : seq :=
 
 (* records of the derived backbone.  loose = true (MAY): records that end at or before a_s / start at or
    behind a_e stay applicable, every donor record is applicable; loose = false (MUST): a gap of one base
-   is required on either side, and donor records keep clear of the two ends of the donor segment. *)
+   is required on either side -- on the left also in front of the ANCHOR base a_s - 1 (the tool re-anchors a
+   deletion one base upstream and anchors an insertion on that base) --, and donor records keep clear of the two
+   ends of the donor segment. *)
 Definition left_ok (loose : bool) (r : asrec) (v : variant) : bool :=
-  if loose then v_e v <=? a_s r else v_e v <? a_s r.
+  if loose then v_e v <=? a_s r else v_e v + 2 <=? a_s r.
 Definition right_ok (loose : bool) (r : asrec) (v : variant) : bool :=
   if loose then a_e r <=? v_s v else a_e r <? v_s v.
 Definition donor_ok (loose : bool) (r : asrec) (v : variant) : bool :=
